@@ -310,7 +310,7 @@ example : ModelFrag (fun _ : Ext K => "3") (fun _ => (Ext.fin 0 : Ext K)) exMode
   have hb : Syntax.Proofs.plainWord "b".toList = true ∧ Syntax.isKeyword "b" = false := ⟨by decide, by decide⟩
   have hd : Syntax.Proofs.plainWord "d".toList = true ∧ Syntax.isKeyword "d" = false := ⟨by decide, by decide⟩
   have hcap : Syntax.Proofs.plainWord "cap".toList = true ∧ Syntax.isKeyword "cap" = false := ⟨by decide, by decide⟩
-  refine ⟨⟨Or.inr ⟨rfl, hx, hn⟩, ?_, ?_⟩, by simp [exModel]⟩
+  refine ⟨⟨Or.inr ⟨rfl, hx, hn⟩, ?_, ?_, ?_, ?_⟩, by simp [exModel]⟩
   · intro c hc
     simp [exModel] at hc
     rcases hc with rfl | rfl
@@ -322,5 +322,23 @@ example : ModelFrag (fun _ : Ext K => "3") (fun _ => (Ext.fin 0 : Ext K)) exMode
     · exact ⟨hx.2, ⟨intOk3, intOk3⟩, ⟨intOk3, intOk3⟩⟩
     · exact ⟨hb.2, trivial⟩
     · exact ⟨hd.2, trivial⟩
+  · -- no line begins with a word that reads `for`
+    intro c hc
+    simp [exModel] at hc
+    rcases hc with rfl | rfl
+    · refine ⟨by show Syntax.lowerWord "cap" ≠ "for"; decide, ?_⟩
+      intro w hw
+      simp only [toP, Syntax.Proofs.headName, Option.some.injEq] at hw
+      subst hw; decide
+    · refine ⟨by show Syntax.lowerWord "" ≠ "for"; decide, ?_⟩
+      intro w hw
+      simp only [toP, Syntax.Proofs.headName, Option.some.injEq] at hw
+      subst hw; decide
+  · intro d hdm
+    simp [exModel] at hdm
+    rcases hdm with rfl | rfl | rfl
+    · show Syntax.lowerWord "x" ≠ "for"; decide
+    · show Syntax.lowerWord "b" ≠ "for"; decide
+    · show Syntax.lowerWord "d" ≠ "for"; decide
 
 end Rooc.Props.C12
